@@ -3,7 +3,7 @@ use super::ctx::Cfg;
 use crate::kf;
 use crate::oracle::*;
 use crate::src::*;
-use crate::{chk, cov};
+use crate::{chk, cov, covopt, reached};
 use libmctp::base_packet::MessageType;
 use libmctp::control_packet::CompletionCode;
 use libmctp::errors::{ControlMessageError, DecodeError};
@@ -108,9 +108,9 @@ pub fn judge<S: Src, const P: u8>(s: &mut S, b: &[u8], res: &DecResult) {
     // ---- C09
     if !r.long_enough {
         chk!(s, P, C09, res.is_err(), "input too short to hold headers and PEC is rejected");
-        cov!(s, P, C09, n == 0, "dec: empty input");
-        cov!(s, P, C09, n == 9, "dec: nine bytes");
-        cov!(s, P, C09, n == 12 && r.is_control && !r.is_request, "dec: 12-byte control response (no room for a completion code)");
+        covopt!(s, P, C09, n == 0, "dec: empty input");
+        covopt!(s, P, C09, n == 9, "dec: nine bytes");
+        covopt!(s, P, C09, n == 12 && r.is_control && !r.is_request, "dec: 12-byte control response (no room for a completion code)");
         return;
     }
     s.assume(!c09_excluded_response(b));
@@ -119,11 +119,11 @@ pub fn judge<S: Src, const P: u8>(s: &mut S, b: &[u8], res: &DecResult) {
             chk!(s, P, C09, r.accept, "accepted => header v1/rsvd 0/IC clear/type supported, PEC correct, control: cc Success and fixed length matches");
             chk!(s, P, C09, *t == mt(r.typ), "accepted => reported type is the type in the message header");
             chk!(s, P, C09, p.len() == n - 1 - r.off && core::ptr::eq(p.as_ptr(), b[r.off..].as_ptr()), "accepted payload is exactly the bytes between the message header and the PEC");
-            cov!(s, P, C09, r.is_control && r.is_request && r.has_fixed_len, "dec: fixed-length control request accepted");
-            cov!(s, P, C09, r.is_control && r.is_request && !r.has_fixed_len && p.len() > 0, "dec: variable-length control request accepted");
-            cov!(s, P, C09, r.is_control && !r.is_request && r.has_fixed_len, "dec: fixed-length control response accepted");
-            cov!(s, P, C09, r.typ == 0x7F && p.len() > 1, "dec: IANA message accepted");
-            cov!(s, P, C09, r.typ == 0x06 && p.is_empty(), "dec: empty secured message accepted");
+            covopt!(s, P, C09, r.is_control && r.is_request && r.has_fixed_len, "dec: fixed-length control request accepted");
+            covopt!(s, P, C09, r.is_control && r.is_request && !r.has_fixed_len && p.len() > 0, "dec: variable-length control request accepted");
+            covopt!(s, P, C09, r.is_control && !r.is_request && r.has_fixed_len, "dec: fixed-length control response accepted");
+            covopt!(s, P, C09, r.typ == 0x7F && p.len() > 1, "dec: IANA message accepted");
+            covopt!(s, P, C09, r.typ == 0x06 && p.is_empty(), "dec: empty secured message accepted");
         }
         Err((t, e)) => {
             chk!(s, P, C09, !r.accept, "well-formed input (all acceptance conditions hold) is accepted");
@@ -141,14 +141,14 @@ pub fn judge<S: Src, const P: u8>(s: &mut S, b: &[u8], res: &DecResult) {
                     CompletionCode::ErrorUnsupportedCmd => 5,
                 };
                 chk!(s, P, C09, r.is_control && !r.is_request && r.cc == code && code != 0, "UnsuccessfulCompletionCode(c) only for a response carrying c != Success");
-                cov!(s, P, C09, code == 5, "dec: completion code 5 reported");
+                covopt!(s, P, C09, code == 5, "dec: completion code 5 reported");
             }
             chk!(s, P, C09, *t != MessageType::Invalid || !r.hdr_ok, "message type Invalid only for an unsupported header");
             chk!(s, P, C09, *t == MessageType::Invalid || (r.hdr_ok && *t == mt(r.typ)), "a non-Invalid message type in an error is the input's own type");
-            cov!(s, P, C09, bad_pec && r.typ == 0x05, "dec: SPDM with bad PEC");
-            cov!(s, P, C09, bad_len, "dec: bad control length reported");
-            cov!(s, P, C09, !r.hdr_ok && (b[4] & 0x0F) == 1 && (b[4] >> 4) != 0, "dec: reserved bits set rejected");
-            cov!(s, P, C09, !r.hdr_ok && b[4] == 1 && (b[8] >> 7) == 1, "dec: IC bit rejected");
+            covopt!(s, P, C09, bad_pec && r.typ == 0x05, "dec: SPDM with bad PEC");
+            covopt!(s, P, C09, bad_len, "dec: bad control length reported");
+            covopt!(s, P, C09, !r.hdr_ok && (b[4] & 0x0F) == 1 && (b[4] >> 4) != 0, "dec: reserved bits set rejected");
+            covopt!(s, P, C09, !r.hdr_ok && b[4] == 1 && (b[8] >> 7) == 1, "dec: IC bit rejected");
         }
     }
 }
@@ -159,16 +159,19 @@ fn run<S: Src, const P: u8>(s: &mut S, b: &[u8]) {
     // excluded everywhere (C10 looks at them through the witness harnesses)
     s.assume(!kf::dec_any(b));
     let ctx = cfg.build();
+    let req0 = ctx.get_request().get_eid();
+    let resp0 = ctx.get_response().get_eid();
     let res = ctx.decode_packet(b);
+    reached!(s, "dec: decode_packet returned");
     judge::<S, P>(s, b, &res);
     if P == C10 {
         cov!(s, P, C10, res.is_ok(), "dec: returns Ok");
-        cov!(s, P, C10, res.is_err() && b.len() >= 13, "dec: returns Err on a full-size input");
-        cov!(s, P, C10, b.len() == 0, "dec: empty input reached the decoder");
-        cov!(s, P, C10, b.len() == 11, "dec: truncated control packet reached the decoder");
+        cov!(s, P, C10, res.is_err(), "dec: returns Err");
+        covopt!(s, P, C10, b.len() == 0, "dec: empty input reached the decoder");
+        covopt!(s, P, C10, b.len() == 11, "dec: truncated control packet reached the decoder");
     }
     if P == C13 {
-        chk!(s, P, C13, ctx.get_request().get_eid() == cfg.req_eid && ctx.get_response().get_eid() == cfg.resp_eid, "a decode-only call leaves both EID cells unchanged");
+        chk!(s, P, C13, ctx.get_request().get_eid() == req0 && ctx.get_response().get_eid() == resp0, "a decode-only call leaves the EID of both halves unchanged");
         cov!(s, P, C13, res.is_ok() && b.len() >= 14 && (b[8] & 0x7F) == 0 && b[10] == 0x01, "dec: accepted Set Endpoint ID request decoded only");
     }
 }
